@@ -51,7 +51,15 @@ def rule_edgepred(ctx):
         need(G.op == "loop", "C05.EDGEPRED", "%s: graph is not built by one loop" % q)
         lid, gname, init, body = G.a
         it = s.loops[lid][1]
-        yield ob("C05.EDGEPRED", f, "%s:graph-init" % q, init.op == "dict" and not init.a, "graph starts as an empty dict")
+        init_empty = init.op == "dict" and not init.a
+        # two-pass form: {e: [] for (_, e) in pairs} creates one empty adjacency list per estimate index of the very
+        # pairs the loop then distributes
+        init_keys = False
+        if init.op == "comp" and init.a[0] == "dict" and len(init.a[2]) == 1 and not init.a[3] and init.a[1].op == "tuple" and len(init.a[1].a) == 2:
+            k0, v0 = init.a[1].a
+            el = tm.mk("iter", init.a[2][0], init.a[4])
+            init_keys = init.a[2][0] is it and v0.op == "list" and not v0.a and k0 is tm.proj(el, 1)
+        yield ob("C05.EDGEPRED", f, "%s:graph-init" % q, init_empty or init_keys, "graph starts as an empty dict" if init_empty else "graph starts with one empty adjacency list per estimate index of the hit pairs")
         # every write to the graph variable
         writes = [m for m in s.by_kind("mutate") if m.root == gname]
         good_w = True
@@ -70,7 +78,13 @@ def rule_edgepred(ctx):
                 val_t = m.val.a[0] if m.val.op == "tuple" and m.val.a else None
             else:
                 good_w = False
-        idiom = sorted(kinds) in (["method:append", "setitem"], ["method:append", "method:setdefault"])
+        idiom = sorted(kinds) in (["method:append", "setitem"], ["method:append", "method:setdefault"]) or (init_keys and kinds == ["method:append"])
+        if init_keys and kinds == ["method:append"]:
+            for m in writes:
+                tgt = m.d.get("old")
+                # G[e].append(r): the list appended to is G[<estimate component of the pair>]
+                if tgt is not None and tgt.op == "sub":
+                    key_t = tgt.a[1]
         # every hit pair must be recorded: the append runs on every iteration (only the creation of the list is conditional)
         for m in writes:
             if m.how == "setitem":
